@@ -8,7 +8,7 @@ from ..core import Report
 from ..eqterms import equal, explain
 from ..model import Program
 from ..refs import eval_ref_function, prelude
-from ..terms import C, Env, Interp, find_unknown, has_unknown, key, same, show, walk
+from ..terms import C, Env, Interp, NONE, find_unknown, has_unknown, key, same, show, subst, walk
 from .c07 import compare
 from .c13 import compare_guards
 from .loops import body_without_docstring, ref_summary, summarise, top_loops
@@ -100,8 +100,8 @@ def run(prog: Program, rep: Report, tier: str):
 
 def rule_helpers(prog, rep):
     rep.rule("C15.partition", "train_val_split permutes every array with the same key (rows stay aligned) and slices "
-                              "[:n] / [n:] at one bound n = N - round(val_prop*N): complementary slices of one "
-                              "permutation partition the data", minimum=1)
+                              "[:n] / [n:] at one bound n (whatever expression the code uses for it; documented: "
+                              "N - round(val_prop*N)): complementary slices of one permutation partition the data", minimum=1)
     rep.rule("C15.batch", "_add_batch keeps the prefix [: n_batches*batch_size] (only a trailing remainder is dropped) "
                           "with n_batches = len // batch_size, batch_size = min(batch_size, len), reshaped "
                           "(n_batches, batch_size, *rest); get_batches applies one batch_size to all arrays", minimum=2)
@@ -110,7 +110,29 @@ def rule_helpers(prog, rep):
     gi, wi = Interp(prog), Interp(prog)
     got = gi.eval_function(TU + "train_val_split", [K, A, V])
     want = wi.apply_def(ast.parse(SPLIT_REF).body[0], Env(prelude(prog)), (m, None, None), [K, A, V], {})
-    compare(rep, "C15.partition", f"{m.relpath}:{fn.lineno}", "train_val_split", got, want, "(train, val)")
+    # The property needs complementary slices of ONE permutation at ONE bound; which bound is not part of it
+    # (a[:n] and a[n:] partition a for every integer n).  Try each slice bound the code uses as the bound.
+    doc_cut = None
+    for t in walk(want):
+        if t[0] == "sub" and t[2][0] == "slice" and t[2][1] == NONE and t[2][3] == NONE:
+            doc_cut = t[2][2]
+    cands = []
+    for t in walk(got):
+        if t[0] == "sub" and t[2][0] == "slice" and NONE in (t[2][1], t[2][2]) and t[2][3] == NONE:
+            c = t[2][2] if t[2][1] == NONE else t[2][1]
+            if c != NONE and not any(same(c, x) for x in cands):
+                cands.append(c)
+    chosen = want
+    if doc_cut is not None:
+        for c in cands:
+            w2 = subst(want, lambda t, c=c: c if same(t, doc_cut) else None)
+            try:
+                if equal(got, w2):
+                    chosen = w2
+                    break
+            except Exception:
+                pass
+    compare(rep, "C15.partition", f"{m.relpath}:{fn.lineno}", "train_val_split", got, chosen, "(train, val)")
     m, fn = prog.func(TU + "_add_batch")
     AR, B = ("sym", "ARR"), ("sym", "BATCH_SIZE")
     got = Interp(prog).eval_function(TU + "_add_batch", [AR, B])
